@@ -55,17 +55,19 @@ func HasRealDir(kind string) bool {
 }
 
 type Opts struct {
-	Kind          string
-	NoIntegrity   bool
-	AutoBucket    bool
-	HostBucket    bool
-	HostBases     []string
-	NoVersioning  bool
-	UnimplPageErr bool
-	MetaLimit     int    // 0: default
-	Dir           string // scratch dir for disk-backed kinds; "" => created
-	BoltSync      bool   // true: real fsync (C15)
-	FixedTime     time.Time
+	Kind        string
+	NoIntegrity bool
+	AutoBucket  bool
+	HostBucket  bool
+	HostBases   []string
+	// HostBasesEmpty passes WithHostBucketBase an empty, non-nil list ("no bases configured")
+	HostBasesEmpty bool
+	NoVersioning   bool
+	UnimplPageErr  bool
+	MetaLimit      int    // 0: default
+	Dir            string // scratch dir for disk-backed kinds; "" => created
+	BoltSync       bool   // true: real fsync (C15)
+	FixedTime      time.Time
 	// BackwardsClock gives the front end (not the backend) a time source that steps one second
 	// back with every reading: nothing the server orders may depend on the clock being monotonic.
 	BackwardsClock bool
@@ -208,6 +210,9 @@ func (s *Server) buildFaker() {
 	opts = append(opts, gofakes3.WithIntegrityCheck(!o.NoIntegrity))
 	if o.AutoBucket {
 		opts = append(opts, gofakes3.WithAutoBucket(true))
+	}
+	if o.HostBasesEmpty {
+		opts = append(opts, gofakes3.WithHostBucketBase([]string{}...))
 	}
 	if len(o.HostBases) > 0 {
 		opts = append(opts, gofakes3.WithHostBucketBase(o.HostBases...))
